@@ -357,3 +357,132 @@ Print Assumptions C01_generated_CheckZoom_is_the_model.
 Theorem C01_generated_SetLat_literals : Generated.SetLat_limit = (850511287798, -10)%Z /\ Generated.SetLat_scale = (10 ^ 10)%Z.
 Proof. exact GenEqConst.gen_SetLat_eq. Qed.
 Print Assumptions C01_generated_SetLat_literals.
+
+(* ================= the main results over the float kernels REGENERATED from /repo (SIDGen.GeneratedF, theories/GenC01.v) =================
+   g_lonIndex / g_latIndex / g_vIndex are the locals lonIndex, latIndex of getHorizontalTileIdOnPoint and vIndex of getVerticalTileIdOnAltitude as
+   translated from the Go source on every run; Ztrunc_f is Go's int64(.); M : libm is the record of Go's math functions (any). *)
+From SIDGen Require GeneratedF.
+From SID Require Import GenC01.
+Theorem C01_gen_x_always_in_range : forall lon lat h, 0 <= h <= 35 -> ffin lon = true -> (-180 <= fval lon <= 180)%R ->
+  exists x, Ztrunc_f (GeneratedF.getHorizontalTileIdOnPoint_lonIndex lon lat h) = Some x /\ 0 <= x < 2 ^ h.
+Proof. exact gen_x_in_range. Qed.
+Print Assumptions C01_gen_x_always_in_range.
+Theorem C01_gen_x_is_exact_floor_partial : forall lon lat h, 0 <= h <= 35 -> ffin lon = true -> (-180 <= fval lon <= 180)%R ->
+  ~ x_rounding (fval lon) h -> Ztrunc_f (GeneratedF.getHorizontalTileIdOnPoint_lonIndex lon lat h) = Some (X_exact h (fval lon)).
+Proof. exact gen_x_exact_outside_class. Qed.
+Print Assumptions C01_gen_x_is_exact_floor_partial.
+Theorem C01_gen_x_within_one_column : forall lon lat h x, 0 <= h <= 35 -> ffin lon = true -> (-180 <= fval lon <= 180)%R ->
+  Ztrunc_f (GeneratedF.getHorizontalTileIdOnPoint_lonIndex lon lat h) = Some x -> X_exact h (fval lon) - 1 <= x <= X_exact h (fval lon) + 1.
+Proof. exact gen_x_within_one. Qed.
+Print Assumptions C01_gen_x_within_one_column.
+Theorem C01_gen_x_180_is_minus_180 : forall lat h, 0 <= h <= 35 ->
+  Ztrunc_f (GeneratedF.getHorizontalTileIdOnPoint_lonIndex 180%float lat h) = Some 0 /\
+  Ztrunc_f (GeneratedF.getHorizontalTileIdOnPoint_lonIndex (-180)%float lat h) = Some 0.
+Proof. exact gen_x_180_is_minus_180. Qed.
+Print Assumptions C01_gen_x_180_is_minus_180.
+Theorem C01_gen_x_monotone : forall a b la lb h xa xb, 0 <= h <= 35 ->
+  ffin a = true -> ffin b = true -> (-180 <= fval a <= 180)%R -> (-180 <= fval b <= 180)%R -> (lon_fold (fval a) <= lon_fold (fval b))%R ->
+  Ztrunc_f (GeneratedF.getHorizontalTileIdOnPoint_lonIndex a la h) = Some xa ->
+  Ztrunc_f (GeneratedF.getHorizontalTileIdOnPoint_lonIndex b lb h) = Some xb -> xa <= xb.
+Proof. exact gen_x_monotone. Qed.
+Print Assumptions C01_gen_x_monotone.
+Theorem C01_gen_x_exact_on_column_boundaries : forall lon lat h j k, 0 <= h <= 35 -> 0 <= j <= 44 -> 0 <= k < 2 ^ j -> ffin lon = true ->
+  fval lon = (IZR k * 360 / bpow radix2 j - 180)%R ->
+  Ztrunc_f (GeneratedF.getHorizontalTileIdOnPoint_lonIndex lon lat h) = Some (Zfloor (IZR k * bpow radix2 (h - j))).
+Proof. exact gen_x_on_boundary. Qed.
+Print Assumptions C01_gen_x_exact_on_column_boundaries.
+Theorem C01_gen_x_rounding_refuted :
+  exists lon h, 0 <= h <= 35 /\ ffin lon = true /\ (-180 <= fval lon <= 180)%R /\ x_rounding (fval lon) h /\
+                (forall lat, Ztrunc_f (GeneratedF.getHorizontalTileIdOnPoint_lonIndex lon lat h) = Some 4) /\ X_exact h (fval lon) = 3.
+Proof. exact gen_x_rounding_refuted. Qed.
+Print Assumptions C01_gen_x_rounding_refuted.
+Theorem C01_gen_f_is_exact_floor_partial : forall alt v, 0 <= v <= 35 -> ffin alt = true -> (Rabs (fval alt) <= bpow radix2 40)%R ->
+  ~ alt_underflow alt v ->
+  Ztrunc_f (GeneratedF.getVerticalTileIdOnAltitude_vIndex alt v) = Some (Zfloor (fval alt * bpow radix2 v / bpow radix2 25)).
+Proof. exact gen_f_exact. Qed.
+Print Assumptions C01_gen_f_is_exact_floor_partial.
+Theorem C01_gen_alt_underflow_refuted :
+  exists alt v, 0 <= v <= 35 /\ ffin alt = true /\ (Rabs (fval alt) <= bpow radix2 25)%R /\ alt_underflow alt v /\
+                Ztrunc_f (GeneratedF.getVerticalTileIdOnAltitude_vIndex alt v) = Some 0 /\ F_exact v (fval alt) = -1.
+Proof. exact gen_f_underflow_refuted. Qed.
+Print Assumptions C01_gen_alt_underflow_refuted.
+Theorem C01_gen_top_edge_altitude : forall v, 0 <= v <= 35 -> Ztrunc_f (GeneratedF.getVerticalTileIdOnAltitude_vIndex 33554432%float v) = Some (2 ^ v).
+Proof. exact gen_f_top_edge. Qed.
+Print Assumptions C01_gen_top_edge_altitude.
+(* latitude, for every libm record M; m is the code's float 1 - Log(Tan r + 1/Cos r)/Pi with r the regenerated DegreeToRadian *)
+Theorem C01_gen_m_uses_generated_DegreeToRadian : forall M lat,
+  merc_m (GeneratedF.m_tan M) (GeneratedF.m_cos M) (GeneratedF.m_log M) lat =
+  (let r := GeneratedF.DegreeToRadian lat in 1 - GeneratedF.m_log M (GeneratedF.m_tan M r + 1 / GeneratedF.m_cos M r) / c_pi)%float.
+Proof. exact merc_m_over_generated. Qed.
+Print Assumptions C01_gen_m_uses_generated_DegreeToRadian.
+Theorem C01_gen_y_rows_nested_and_in_range : forall M lon lat r,
+  ffin (merc_m (GeneratedF.m_tan M) (GeneratedF.m_cos M) (GeneratedF.m_log M) lat) = true ->
+  (Rabs (fval (merc_m (GeneratedF.m_tan M) (GeneratedF.m_cos M) (GeneratedF.m_log M) lat)) <= 4)%R ->
+  Ztrunc_f (GeneratedF.getHorizontalTileIdOnPoint_latIndex M lon lat 35) = Some r -> 0 <= r < 2 ^ 35 ->
+  forall h, 0 <= h <= 35 -> Ztrunc_f (GeneratedF.getHorizontalTileIdOnPoint_latIndex M lon lat h) = Some (anc (35 - h) r) /\ 0 <= anc (35 - h) r < 2 ^ h.
+Proof. exact gen_y_nested. Qed.
+Print Assumptions C01_gen_y_rows_nested_and_in_range.
+Theorem C01_gen_y_all_zooms_from_certified_zoom35_partial : forall M lon lat (latR : R),
+  ffin (merc_m (GeneratedF.m_tan M) (GeneratedF.m_cos M) (GeneratedF.m_log M) lat) = true ->
+  (Rabs (fval (merc_m (GeneratedF.m_tan M) (GeneratedF.m_cos M) (GeneratedF.m_log M) lat)) <= 4)%R -> (Rabs latR <= lat_limit)%R ->
+  Ztrunc_f (GeneratedF.getHorizontalTileIdOnPoint_latIndex M lon lat 35) = Some (Y_exact 35 latR) ->
+  forall h, 0 <= h <= 35 -> Ztrunc_f (GeneratedF.getHorizontalTileIdOnPoint_latIndex M lon lat h) = Some (Y_exact h latR) /\ 0 <= Y_exact h latR < 2 ^ h.
+Proof. exact gen_y_all_zooms_from_35. Qed.
+Print Assumptions C01_gen_y_all_zooms_from_certified_zoom35_partial.
+Theorem C01_gen_y_close_to_real_row_partial : forall M lon lat (latR : R) h, 0 <= h <= 35 ->
+  ffin (merc_m (GeneratedF.m_tan M) (GeneratedF.m_cos M) (GeneratedF.m_log M) lat) = true -> (Rabs latR <= lat_limit)%R ->
+  (Rabs (fval (merc_m (GeneratedF.m_tan M) (GeneratedF.m_cos M) (GeneratedF.m_log M) lat) / 2 - wfrac latR) <= bpow radix2 (-45))%R ->
+  exists y, Ztrunc_f (GeneratedF.getHorizontalTileIdOnPoint_latIndex M lon lat h) = Some y /\ 0 <= y < 2 ^ h /\
+            Y_exact h latR - 1 <= y <= Y_exact h latR + 1 /\ (~ y_rounding latR h -> y = Y_exact h latR).
+Proof. exact gen_y_close. Qed.
+Print Assumptions C01_gen_y_close_to_real_row_partial.
+(* the model's voxel of a point is exactly the three regenerated indices, and outside the two classes they are the exact floors *)
+Theorem C01_gen_point_eid_is_the_generated_kernels : forall M p h v,
+  point_eid (GeneratedF.m_tan M) (GeneratedF.m_cos M) (GeneratedF.m_log M) p h v =
+  match Ztrunc_f (GeneratedF.getHorizontalTileIdOnPoint_lonIndex (plon p) (plat p) h),
+        Ztrunc_f (GeneratedF.getHorizontalTileIdOnPoint_latIndex M (plon p) (plat p) h),
+        Ztrunc_f (GeneratedF.getVerticalTileIdOnAltitude_vIndex (palt p) v) with
+  | Some x, Some y, Some f => Some (mk h x y v f)
+  | _, _, _ => None
+  end.
+Proof. exact point_eid_over_generated. Qed.
+Print Assumptions C01_gen_point_eid_is_the_generated_kernels.
+Theorem C01_gen_point_voxel_partial : forall M p h v, 0 <= h <= 35 -> 0 <= v <= 35 ->
+  pt_domain p -> ~ x_rounding (fval (plon p)) h -> ~ alt_underflow (palt p) v ->
+  ffin (merc_m (GeneratedF.m_tan M) (GeneratedF.m_cos M) (GeneratedF.m_log M) (plat p)) = true ->
+  (0 <= fval (merc_m (GeneratedF.m_tan M) (GeneratedF.m_cos M) (GeneratedF.m_log M) (plat p)) < 2)%R ->
+  Ztrunc_f (GeneratedF.getHorizontalTileIdOnPoint_lonIndex (plon p) (plat p) h) = Some (X_exact h (fval (plon p))) /\
+  Ztrunc_f (GeneratedF.getHorizontalTileIdOnPoint_latIndex M (plon p) (plat p) h) =
+    Some (Zfloor (bpow radix2 h * (fval (merc_m (GeneratedF.m_tan M) (GeneratedF.m_cos M) (GeneratedF.m_log M) (plat p)) / 2))) /\
+  Ztrunc_f (GeneratedF.getVerticalTileIdOnAltitude_vIndex (palt p) v) = Some (F_exact v (fval (palt p))).
+Proof. exact gen_point_voxel_partial. Qed.
+Print Assumptions C01_gen_point_voxel_partial.
+(* the regenerated setters (receiver fields as a tuple, then the error flag) *)
+Theorem C01_gen_SetLon_frame : forall a b c lon, ffin lon = true ->
+  ((180 < Rabs (fval lon))%R -> GeneratedF.Point_SetLon a b c lon = (a, b, c, true)) /\
+  ((Rabs (fval lon) <= 180)%R -> GeneratedF.Point_SetLon a b c lon = (lon, b, c, false)).
+Proof. exact gen_SetLon_frame. Qed.
+Print Assumptions C01_gen_SetLon_frame.
+Theorem C01_gen_SetLat_frame_partial : forall a b c lat a' b' c' e, GeneratedF.Point_SetLat a b c lat = (a', b', c', e) ->
+  a' = a /\ c' = c /\ (e = true -> b' = b) /\
+  (e = false -> ffin lat = true -> (Rabs (fval lat) <= 90)%R ->
+   b' = setlat_trunc lat /\ (- bpow radix2 (-46) <= Rabs (fval lat) - Rabs (fval b') <= 1 / 10 ^ 10 + bpow radix2 (-46))%R).
+Proof. exact gen_SetLat_frame. Qed.
+Print Assumptions C01_gen_SetLat_frame_partial.
+Theorem C01_gen_NewPoint_stores_partial : forall lon lat alt p, ffin lat = true -> (Rabs (fval lat) <= 90)%R ->
+  (let '(a, b, c, e1) := GeneratedF.Point_SetLon 0 0 0 lon in
+   if e1 then ({| plon := a; plat := b; palt := c |}, true)
+   else let '(a, b, c, e2) := GeneratedF.Point_SetLat a b c lat in
+        if e2 then ({| plon := a; plat := b; palt := c |}, true) else ({| plon := a; plat := b; palt := alt |}, false)) = (p, false) ->
+  plon p = lon /\ palt p = alt /\ plat p = setlat_trunc lat /\
+  (- bpow radix2 (-46) <= Rabs (fval lat) - Rabs (fval (plat p)) <= 1 / 10 ^ 10 + bpow radix2 (-46))%R.
+Proof. exact gen_NewPoint_stores. Qed.
+Print Assumptions C01_gen_NewPoint_stores_partial.
+Example C01_gen_nonvacuous :
+  Ztrunc_f (GeneratedF.getHorizontalTileIdOnPoint_lonIndex 0x1.1788c154c985fp+7%float 0%float 25) = Some 29804453 /\
+  Ztrunc_f (GeneratedF.getHorizontalTileIdOnPoint_lonIndex 0x1.67fffffffffffp+7%float 0%float 35) = Some (2 ^ 35 - 1) /\
+  Ztrunc_f (GeneratedF.getVerticalTileIdOnAltitude_vIndex (-0.5)%float 25) = Some (-1) /\
+  Ztrunc_f (GeneratedF.getVerticalTileIdOnAltitude_vIndex (-33554432)%float 0) = Some (-1) /\
+  GeneratedF.Point_SetLon 1 2 3 181 = (1, 2, 3, true)%float /\ GeneratedF.Point_SetLon 1 2 3 (-180) = (-180, 2, 3, false)%float /\
+  GeneratedF.Point_SetLat 1 2 3 0x1.9d13e90a263bdp+3 = (1, 0x1.9d13e90a187d6p+3, 3, false)%float.
+Proof. exact gen_kernels_example. Qed.
